@@ -130,7 +130,7 @@ func (sess *Session) writeLoop() {
 			return
 
 		case topic := <-sess.detach:
-			sess.delSub(topic)
+			sess.detachFromTopic(topic)
 
 		case <-ticker.C:
 			if err := wsWrite(sess.ws, websocket.PingMessage, nil); err != nil {
